@@ -879,6 +879,11 @@ impl Session {
     /// Write a frame to the connection
     pub async fn write_frame(&self, frame: Frame) -> Result<()> {
         use tokio_util::codec::Encoder;
+        // Nothing can be sent on a closed session; in particular a frame must not be
+        // "accepted" into the initial buffer and reported as written.
+        if self.is_closed() {
+            return Err(AnyTlsError::SessionClosed);
+        }
         let frame_cmd = frame.cmd;
         let frame_stream_id = frame.stream_id;
         let mut codec = FrameCodec;
